@@ -62,7 +62,7 @@ func (st *sgrTokenizer) Token() (Styling, string) {
 // ParseSGREscapedText parses SGR-escaped text into a Text. It also removes
 // non-SGR CSI sequences sequences in the text.
 func ParseSGREscapedText(s string) Text {
-	var text Text
+	var tb TextBuilder
 	var style Style
 
 	tokenizer := sgrTokenizer{text: s}
@@ -71,11 +71,11 @@ func ParseSGREscapedText(s string) Text {
 		if styling != nil {
 			styling.transform(&style)
 		}
-		if content != "" {
-			text = append(text, &Segment{style, content})
-		}
+		// Use a TextBuilder so that consecutive pieces with the same style
+		// (for example after a repeated SGR sequence) are merged.
+		tb.WriteText(TextFromSegment(&Segment{style, content}))
 	}
-	return text
+	return tb.Text()
 }
 
 var sgrStyling = map[int]Styling{
